@@ -180,10 +180,10 @@ Fixpoint set_nth {A} (l : list A) (j : nat) (x : A) : list A :=
   | _ :: r, O => x :: r
   | y :: r, S j' => y :: set_nth r j' x
   end.
+Definition walk_step (m : list (nat * nat)) (res : list assign) (p : nat * assign) : list assign :=
+  match lookup m (fst p) with Some j => set_nth res j (snd p) | None => res end.
 Definition slice_walk (m : list (nat * nat)) (items : list assign) : list assign :=
-  fold_left (fun res (p : nat * assign) =>
-               match lookup m (fst p) with Some j => set_nth res j (snd p) | None => res end)
-            (combine (seq 0%nat (length items)) items) (repeat [] (length m)).
+  fold_left (walk_step m) (combine (seq 0%nat (length items)) items) (repeat [] (length m)).
 
 (* None = ValueError (zero step) *)
 Definition getslice (s : sweep) (sl : slice) : option sweep :=
